@@ -158,7 +158,7 @@ def build_classes(d, ctx):
                 ctx.seen = dict(kwargs)
                 return react(ctx.script)
             handler.__name__ = handler.__qualname__ = f"a{i:03d}"
-            handler.__annotations__ = {n: pyclass(types[vn]) for n, vn in a["ins"] if vn in types}
+            handler.__annotations__ = {n: (pyclass(types[vn]) if vn in types else str) for n, vn in a["ins"]}
             ns[f"a{i:03d}"] = S.callable_action(a["name"], dict(a["ins"]), dict(a["outs"]))(handler)
         return type("Svc_" + s["id"][-8:], (S.UpnpServerService,), ns)
 
@@ -408,6 +408,31 @@ class Gen:
         return {"h": h, "url": url, "icons": icons, "svcs": svcs, "subs": subs}
 
 
+def malform(rng, d):
+    """one malformation of the definition (outside the theorems' domain; the model must still say what the code does)"""
+    svcs = [s for _, s in all_svcs(d) if s["vars"]]
+    if not svcs:
+        return
+    s = rng.choice(svcs)
+    v = rng.choice(s["vars"])
+    kind = PYTYPE[v["type"]]
+    m = rng.randrange(6)
+    if m == 0 and kind in ("int", "float") and not v["type"].endswith(".tz"):      # default outside its own range
+        v["range"], v["allowed"], v["default"] = ["0", "10", None], None, "11"
+    elif m == 1:                                                                       # create_state_var: unknown data type
+        v["type"] = rng.choice(["ui3", "String", "bin.base32"])
+        v["range"] = v["allowed"] = v["default"] = None
+    elif m == 2 and kind not in ("str", "bool"):                                       # unparseable default
+        v["default"] = rng.choice(["abc", "1.5.2", "--1"])
+    elif m == 3 and kind in ("int", "float") and not v["type"].endswith(".tz"):        # a range without maximum
+        v["range"], v["allowed"], v["default"] = ["0", None, rng.choice([None, "1"])], None, None
+    elif m == 4 and s["acts"]:                                                         # an argument without state variable
+        a = rng.choice(s["acts"])
+        (a["ins"] if rng.random() < 0.5 else a["outs"]).append([f"Arg{rng.randint(100, 999)}", "NoSuchVariable"])
+    elif m == 5 and kind not in ("str", "bool") and not v["type"].endswith(".tz"):     # unparseable allowed value
+        v["range"], v["default"], v["allowed"] = None, None, [rng.choice(CANON_TEXT[tkind(v["type"])]), "abc"]
+
+
 def valid_value(rng, v):
     """a python value (encoded) the variable's declaration accepts, or None"""
     tn, kind = v["type"], PYTYPE[v["type"]]
@@ -487,7 +512,7 @@ def mk_script(rng, s, a, kind=None):
             outs.append([n, valid_value(rng, vars_[vn])])
         return ["return", outs]
     if kind == "error":
-        return ["error", rng.choice([401, 402, 501, 600, 601, 602, 701, 714, 799, 1, 65535])]
+        return ["error", rng.choice([401, 402, 501, 600, 601, 602, 701, 714, 799, 1, 65535, None, 0])]
     return [kind]
 
 
@@ -660,6 +685,32 @@ def type_sweep(rng):
     return out
 
 
+def small_scope(rng, max_len):
+    """EVERY request whose action element carries 0..max_len argument elements drawn from eight (name, text) pairs - both
+    in-arguments with a valid / unparseable / out-of-range / empty / not-allowed text, an unknown name, an out-argument's
+    name - against one fixed service (a ui1 in-argument with range 0..10 and a string one with an allowed list)"""
+    import itertools
+    s = {"type": "urn:schemas-upnp-org:service:X:1", "id": "urn:upnp-org:serviceId:X", "scpd": "/X/scpd.xml", "control": "/X/control",
+         "event": "/X/event",
+         "vars": [{"name": "VA", "type": "ui1", "evented": True, "default": "3", "range": ["0", "10", "1"], "allowed": None},
+                  {"name": "VB", "type": "string", "evented": False, "default": None, "range": None, "allowed": ["on", "off"]}],
+         "acts": [{"name": "Set", "ins": [["A", "VA"], ["B", "VB"]], "outs": [["R", "VA"]]}]}
+    alphabet = [("A", "5"), ("A", "abc"), ("A", "11"), ("A", ""), ("B", "on"), ("B", "zz"), ("C", "1"), ("R", "1")]
+    hdr = '"%s#Set"' % s["type"]
+    script = ["return", [["R", V.enc(7)]]]
+    ops = []
+    for n in range(max_len + 1):
+        for seq in itertools.product(alphabet, repeat=n):
+            ops.append(["raw", 0, hdr, {"tree": envelope(s["type"], "Set", [list(x) for x in seq])}, script, "small_scope"])
+    gen = Gen(rng)
+    cases = []
+    for i in range(0, len(ops), 45):
+        d = gen.device(0, [0, 0, 99])
+        d["svcs"], d["icons"] = [s], []
+        cases.append({"base": "http://h:1/device.xml", "probes": [], "def": d, "ops": ([["describe"]] if i == 0 else []) + ops[i:i + 45]})
+    return cases
+
+
 # ======================================================================================= the plugin
 class Plugin:
     ID = "C14"
@@ -674,7 +725,9 @@ class Plugin:
             "the description fetched by the real UpnpFactory, calls through the real client action with valid and refused "
             "keyword arguments incl. markup-laden Unicode strings and a scripted handler (typed results / UpnpActionError / "
             "UpnpValueError), and harness-made POSTs of 21 classes: valid, reordered, missing, duplicate, unknown, unparseable, "
-            "out of range / not allowed, unknown action, not XML, no / empty / foreign Body, missing / malformed SOAPAction, ...); "
+            "out of range / not allowed, unknown action, not XML, no / empty / foreign Body, missing / malformed SOAPAction, ...), "
+            "plus a sweep of every data type x {plain, default, range+step, allowed list} and (thorough: exhaustive) every request "
+            "with 0..3 argument elements over eight (name, text) pairs against a fixed two-argument action; "
             "non-trivial = the device was instantiated and at least one request reached action_handler; distinct = distinct "
             "(case, observation)")
     TRUSTED = [
@@ -727,22 +780,27 @@ class Plugin:
         return out
 
     def generate(self, rng, tier):
-        n = 2600 if tier == "thorough" else 60
-        cases = type_sweep(rng)
-        self.last_exhaustive = False
+        n = 6000 if tier == "thorough" else 60
+        cases = type_sweep(rng) + small_scope(rng, 3 if tier == "thorough" else 2)
+        self.last_exhaustive = tier == "thorough"
         gen = Gen(rng)
         for _ in range(n):
             depth = rng.choice([0, 0, 0, 1, 1, 2])
             d = gen.device(depth, [rng.randint(1, 3), rng.randint(0, 3), depth])
             if not all_svcs(d):
                 d["svcs"].append(gen.service(rng.randint(1, 5), rng.randint(1, 3)))
-            cases.append(mk_case(rng, d, n_calls=rng.randint(1, 3), n_raw=rng.randint(2, 5)))
+            c = mk_case(rng, d, n_calls=rng.randint(1, 3), n_raw=rng.randint(2, 5))
+            if rng.random() < 0.08:
+                malform(rng, c["def"])
+            cases.append(c)
         return cases
 
     # ------------------------------------------------------------------ implementation
     def run_impl(self, case):
         if self._loop is None:
             self._loop = asyncio.new_event_loop()
+            # event tasks of a service whose __init__ failed half-way die on their own (C15's business): keep stderr quiet
+            self._loop.set_exception_handler(lambda loop, ctx: None)
         with warnings.catch_warnings():
             warnings.simplefilter("ignore")
             return self._loop.run_until_complete(self._run(case))
@@ -1046,24 +1104,41 @@ class Plugin:
 
     # ------------------------------------------------------------------ shrinking
     def shrink(self, case):
+        """most aggressive candidates first (the driver keeps the first one that still fails): the operations are
+        independent of each other, so a single operation is tried first, then a single service, then pieces of it"""
         ops, d = case["ops"], case["def"]
-        for i in range(len(ops)):
-            if len(ops) > 1:
-                yield {**case, "ops": ops[:i] + ops[i + 1:]}
+        if len(ops) > 1:
+            for i in range(len(ops)):
+                yield {**case, "ops": [ops[i]]}
+            h = len(ops) // 2
+            yield {**case, "ops": ops[:h]}
+            yield {**case, "ops": ops[h:]}
+            return
+        svcs = all_svcs(d)
         used = {o[1] for o in ops if o[0] != "describe"}
 
+        def reindex(k):
+            return [o if o[0] == "describe" else [o[0], k] + list(o[2:]) for o in ops]
+        if len(used) == 1 and (len(svcs) > 1 or d["subs"] or d["icons"]):
+            (k,) = used
+            if k < len(svcs):                               # the service alone, directly under the root device
+                yield {**case, "def": {**d, "icons": [], "svcs": [svcs[k][1]], "subs": []}, "ops": reindex(0)}
+        if not used:
+            for k in range(len(svcs)):
+                yield {**case, "def": {**d, "icons": [], "svcs": [svcs[k][1]], "subs": []}}
+
         def variants(x, offset):
-            # drop services no operation refers to (indices of the remaining operations are kept valid by dropping
-            # only from the end of the visiting order)
+            # pieces of the definition no remaining operation refers to
             for i in range(len(x["subs"])):
                 n_before = offset + len(x["svcs"]) + sum(len(all_svcs(y)) for y in x["subs"][:i])
-                n_here = len(all_svcs(x["subs"][i]))
-                if not any(n_before <= u for u in used) or n_here == 0:
+                if not any(n_before <= u for u in used):
                     yield {**x, "subs": x["subs"][:i] + x["subs"][i + 1:]}
             if x["icons"]:
                 yield {**x, "icons": []}
             for i, s in enumerate(x["svcs"]):
                 k = offset + i
+                if not any(k <= u for u in used) and (len(x["svcs"]) > 1 or offset > 0):
+                    yield {**x, "svcs": x["svcs"][:i] + x["svcs"][i + 1:]}
                 for j, a in enumerate(s["acts"]):
                     if not any(o[0] == "call" and o[1] == k and o[2] == a["name"] for o in ops) and \
                             not any(o[0] == "raw" and o[1] == k and o[2] and o[2].strip('"').endswith("#" + a["name"]) for o in ops):
@@ -1073,6 +1148,7 @@ class Plugin:
                     if not any(vn == v["name"] for a in s["acts"] for _, vn in a["ins"] + a["outs"]):
                         s2 = {**s, "vars": s["vars"][:j] + s["vars"][j + 1:]}
                         yield {**x, "svcs": x["svcs"][:i] + [s2] + x["svcs"][i + 1:]}
+                for j, v in enumerate(s["vars"]):
                     for key in ("default", "range", "allowed"):
                         if v[key] is not None:
                             s2 = {**s, "vars": s["vars"][:j] + [{**v, key: None}] + s["vars"][j + 1:]}
